@@ -18,7 +18,9 @@ EXTENDS TypeAlgebra, Json
 CONSTANTS AtomNames, SibNames, KeyNames, RecShapes1, RecShapes2,
           Depth2Kinds,   \* kinds of depth-1 terms nested once more
           Depth3Kinds,   \* kinds of depth-2 terms nested once more
-          Depth3Cons     \* constructors applied at depth 3
+          Depth3Cons,    \* constructors applied at depth 3
+          LitNames,      \* the literal alphabet: literals that get every constructor applied once ...
+          LitDepth2Kinds \* ... and whose depth-1 terms of these kinds are nested once more
 
 VARIABLE c
 
@@ -51,7 +53,16 @@ AllKinds == {"union", "union3", "opt", "arr", "map", "rec"}
 D1 == Cons(A0, R0, AllKinds)
 D2 == Cons({x \in D1 : Kind(x) \in Depth2Kinds}, R0, AllKinds)
 D3 == Cons({x \in D2 : Kind(x) \in Depth3Kinds}, R0, Depth3Cons)
-Types == A0 \cup D1 \cup D2 \cup D3
+\* the literal alphabet (string literals with quotes, backslashes, newlines, control characters followed by
+\* digits, non-ASCII; zero / negative / large integer literals): bare, under every constructor (union member,
+\* optional, array element, map value, record field incl. optional field), and as the element of an array of
+\* optionals / the member of a union of two literals
+L0 == {Atom(n) : n \in LitNames}
+L1 == Cons(L0, R0, AllKinds) \cup
+      {u \in {Un(<<a, b>>) : a \in L0, b \in L0} : NoDup(Kids(u))} \cup
+      {Arr(Opt(a)) : a \in L0} \cup {Map(k, Opt(a)) : k \in K0, a \in L0}
+L2 == Cons({x \in L1 : Kind(x) \in LitDepth2Kinds /\ Len(Kids(x)) <= 2}, R0, AllKinds \ {"union3"})
+Types == A0 \cup D1 \cup D2 \cup D3 \cup L0 \cup L1 \cup L2
 
 Init == c \in Types
 Next == UNCHANGED c
@@ -82,8 +93,9 @@ RECURSIVE Feat(_)
 Feat(t) == (IF Kind(t) = "arr" /\ HasNil(Kids(t)[1]) THEN {"array-of-nullable"} ELSE {}) \cup
            (IF Kind(t) = "arr" /\ Level(Kids(t)[1]) = 3 THEN {"array-of-negative-literal"} ELSE {}) \cup
            (IF Kind(t) = "arr" /\ Kind(Kids(t)[1]) = "union" /\ ~HasNil(Kids(t)[1]) THEN {"array-of-union"} ELSE {}) \cup
-           (IF t = LitById("dq") THEN {"string-literal-with-quote"} ELSE {}) \cup
-           (IF t = LitById("bs") THEN {"string-literal-with-backslash"} ELSE {}) \cup
+           (IF Kind(t) = "lit" THEN LitFeat(Name(t)) ELSE {}) \cup
+           (IF Kind(t) = "rec" /\ Name(t) \in {"['a b']", "['1']", "['a\"b']", "['']", "x,['a b']"}
+            THEN {"record-key-not-a-name"} ELSE {}) \cup
            UNION {Feat(Kids(t)[i]) : i \in 1..Len(Kids(t))}
 SetSeq(S) == CHOOSE f \in [1..Cardinality(S) -> S] : \A i, j \in 1..Cardinality(S) : i # j => f[i] # f[j]
 
